@@ -723,6 +723,35 @@ fn main() {
         entries.push(Entry { variant: vname.clone(), sname: ty.name.clone(), id, developer: s.developer || *dev, streamed_field });
     }
 
+    // structure of the dispatch enum: a variant must carry the struct of its own name (the
+    // ReadMessage derive dispatches on the variant's payload type), and every message struct
+    // should be reachable through a variant
+    let mut variant_mismatch: Vec<(String, String)> = vec![];
+    for (vname, ty, _) in p.variants.iter() {
+        if vname != "Unknown" && *vname != ty.name {
+            variant_mismatch.push((vname.clone(), ty.name.clone()));
+        }
+    }
+    let mut orphans: Vec<(String, u64)> = vec![];
+    for (name, st) in p.structs.iter() {
+        if let Some(id) = st.message_id {
+            if !p.variants.iter().any(|(_, ty, _)| ty.name == *name) {
+                orphans.push((name.clone(), id));
+            }
+        }
+    }
+    orphans.sort();
+    let mut structure = String::new();
+    structure.push_str("pub const VARIANT_MISMATCH: &[(&str, &str)] = &[");
+    for (v, t) in variant_mismatch.iter() {
+        structure.push_str(&format!("(\"{}\", \"{}\"), ", v, t));
+    }
+    structure.push_str("];\npub const STRUCTS_WITHOUT_VARIANT: &[(&str, u64)] = &[");
+    for (n, id) in orphans.iter() {
+        structure.push_str(&format!("(\"{}\", {}), ", n, id));
+    }
+    structure.push_str("];\n");
+
     // struct generators (closure over everything reachable)
     let mut body = String::new();
     while let Some(n) = g.queue.pop() {
@@ -774,6 +803,7 @@ fn main() {
         .unwrap();
     }
     writeln!(out, "];").unwrap();
+    out.push_str(&structure);
     out.push_str(&body);
 
     writeln!(out, "pub fn strat_message(idx: usize, p: &P) -> BoxedStrategy<V> {{\n    match idx {{").unwrap();
